@@ -8,7 +8,7 @@ namespace Oracle.Coll
 open MV.Model.Coll
 
 def isInPlaceOp (n : String) : Bool :=
-  n == "DeduplicateSliceInPlace" || n == "DeduplicateSliceInPlaceWithCompare" || n == "ReverseSlice" ||
+  n == "DeduplicateSliceInPlace" || n == "DeduplicateSliceInPlaceWithCompare" || n == "ReverseSlice" || n == "SwapSlice" ||
   n == "ClearSlice" || n == "DropSliceByIndices" || n == "DropSliceByCondition" || n == "DropSliceOverlappingElements"
 
 /-- print the outcome of an in-place helper -/
@@ -63,6 +63,23 @@ def editStep (name : String) (backing : Bool) (a : List String) : Option String 
       if MV.Spec.Coll.distinct (valsOf m.ents) then fMp (invertMap m) ++ argsU else "-"
   | "ReverseSlice", ["nilptr"] => some okNilPtr
   | "ReverseSlice", [s] => (pInts s).map fun s => fInPlace backing (reverseSlice s)
+  -- item.go, calc.go, map.go
+  | "SwapSlice", [s, i, j] => do
+      if s == "nilptr" then none else
+      let s ← pInts s; let i ← pInt i; let j ← pInt j
+      pure (fInPlace backing (swapSlice s i j))
+  | "SliceSum", [s, h] => do
+      let s ← pInts s; let h ← sumIdxOf h
+      pure (toString (sliceSum s h) ++ argsU)
+  | "MapSum", [m, h] => do
+      let m ← pMap m; let h ← sumKVOf h
+      pure (toString (mapSum m h) ++ argsU)
+  | "MappingFromSlice", [s, g] => do
+      let s ← pInts s; let g ← getterOf g
+      pure (fSl (mappingFromSlice s g) ++ argsU)
+  | "MappingFromMap", [m, g] => do
+      let m ← pMap m; let g ← getterOf g
+      pure (fMp (mappingFromMap m g) ++ argsU)
   -- filter.go
   | "FilterOutByIndices", [s, i] => do
       let s ← pInts s; let i ← pInts i
